@@ -143,9 +143,18 @@ def run_case(case):
             labels.append("change_radii")
         radii = np.array([table[a.element.symbol] for a in t.topology.atoms], dtype=np.float32).astype(np.float64) + np.float32(probe)
         kw = {"n_sphere_points": npts, "probe_radius": probe}
+        before = None
         if case["change"]:
             kw["change_radii"] = case["change"]
+            before = md.shrake_rupley(t, mode="atom", n_sphere_points=npts, probe_radius=probe)
         full = md.shrake_rupley(t, mode="atom", **kw)
+        if before is not None:
+            # change_radii is an argument of one call: the same default call before and after it must agree bit for bit
+            after = md.shrake_rupley(t, mode="atom", n_sphere_points=npts, probe_radius=probe)
+            if not np.array_equal(before, after):
+                k = np.argwhere(before != after)[0]
+                viol.append(("change_radii-leaks-into-later-calls", "default call before / after a call with change_radii=%s: frame %d atom %d %.7g vs %.7g" % (
+                    case["change"], k[0], k[1], before[tuple(k)], after[tuple(k)])))
         if full.shape != (nf, n):
             return {"viol": [("shape", str(full.shape))], "labels": labels, "nontrivial": False}
         xmax = float(np.abs(t.xyz).max())
